@@ -121,3 +121,6 @@ def replay(w):
             b.cleanup()
         return res.violations
     return replay_value(w, check_case, PROP, CONTRACTS)
+
+
+RULE += " Re-encodings include oneof_alternate (X Y X: several occurrences of members of one oneof in alternation). Also 'large' shards (one field per case with 127..70000 bytes / 31..2100 elements / 31..257 entries, on generated and hand-built classes) and an 'after failures' shard (330 failed nested decodes first)."
